@@ -153,6 +153,21 @@ def gen_cases(tier, seed):
                 s['family'] = 'window'
                 s['yield'] = {'p': 0.0, 'window': {'file': line[0], 'lineno': line[1], 'nth': nth, 'name': f'{line[0]}:{line[1]}:{line[2]}', 'wait': 0.2}}
                 cases.append(s)
+    # ... and one preemption INSIDE each read-modify-write statement of the shared monitor state (``jobs_to_complete -= 1``, the id
+    # counter): the thread is held after it has read the old value, until the others have run as far as they can
+    for site in yieldinj.rmw_sites(['processpool.py']):
+        if not site[2].startswith(('TransferState.', 'TransferMonitor.')):
+            continue
+        for nth in (0, 1, 2, 3):
+            for rep in range(2 if quick else 6):
+                s = copy.deepcopy(rng.choice(wbases))
+                s['seed'] = rng.randrange(1 << 30)
+                s['exit'] = rng.choice(['shutdown', 'with'])
+                s['family'] = 'rmw-window'
+                if 'notify_new_transfer' in site[2]:
+                    s['concurrent_submit'] = True
+                s['yield'] = {'p': 0.0, 'window': {'file': site[0], 'lineno': site[1], 'nth': nth, 'name': f'rmw:{site[0]}:{site[1]}:{site[2]}', 'wait': 0.2, 'rmw': True}}
+                cases.append(s)
     # real processes
     for i in range(6 if quick else 24):
         cases.append({'type': 'real', 'seed': rng.randrange(1 << 30), 'what': ['ok', 'fail', 'cancel', 'ok', 'kbi', 'fail'][i % 6],
@@ -247,7 +262,7 @@ def run_inproc(spec):
     if spec.get('yield'):
         w = spec['yield'].get('window')
         wins = [{'file': w['file'], 'line': w['lineno'], 'nth': w.get('nth', 0), 'action': 'pause', 'name': w.get('name'),
-                 'wait': w.get('wait', 0.2)}] if w else ()
+                 'wait': w.get('wait', 0.2), 'rmw': bool(w.get('rmw'))}] if w else ()
         inj = yieldinj.Injector(p=spec['yield'].get('p', 0.0), seed=spec.get('seed', 0), files=['processpool.py'], windows=wins).install()
     try:
         obs = run_spec(spec)
